@@ -44,14 +44,27 @@ func (t *TransactionBase) Success() {
 }
 
 // You must acquire write lock on t.mutex before calling this function!
+//
+// Only the first call finishes the transaction (runs the finally callback and
+// closes the done channel). A finished transaction stays finished: later
+// calls do nothing.
 func (t *TransactionBase) finish() {
+	if t.isDone() {
+		return
+	}
 	if t.finally != nil {
 		t.finally()
 	}
+	close(t.done)
+}
+
+// isDone returns true if the transaction has finished already.
+func (t *TransactionBase) isDone() bool {
 	select {
 	case <-t.done:
+		return true
 	default:
-		close(t.done)
+		return false
 	}
 }
 
@@ -68,6 +81,10 @@ func (t *TransactionBase) Fail(e error) {
 	t.mutex.Lock()
 	defer t.mutex.Unlock()
 
+	// Err() must not change after the transaction has finished.
+	if t.isDone() {
+		return
+	}
 	t.err = e
 	t.finish()
 }
